@@ -785,6 +785,8 @@ impl AssetExpr {
             Expression::None => None,
             Expression::Bytes(x) => Some(x.as_slice()),
             Expression::String(x) => Some(x.as_bytes()),
+            // the name of a policy definition (a hash) used as the name of an asset
+            Expression::Hash(x) => Some(x.as_slice()),
             _ => None,
         }
     }
